@@ -1911,6 +1911,8 @@ class Interp:
             r = self.container_method(node, base, meth, args, kwargs, cfg)
             if r is not None:
                 return r
+        if fname in ("copy.deepcopy", "deepcopy") and len(args) == 1 and isinstance(args[0], (DictV, ListV, Const)):
+            return [(cfg, _deep_fresh(args[0]))]
         if fname == "isinstance" and len(args) == 2:
             d = self.isinstance(args[0], args[1], cfg)
             if d is not None:
@@ -2292,6 +2294,15 @@ def _concrete(v):
     if isinstance(v, DictV):
         return all(_concrete(k) and _concrete(x) for k, x in v.items)
     return False
+
+
+def _deep_fresh(v):
+    """copy.deepcopy over the abstract domain: same contents, no container is an alias of a heap slot any more."""
+    if isinstance(v, DictV):
+        return DictV([(k, _deep_fresh(x)) for k, x in v.items])
+    if isinstance(v, ListV):
+        return ListV([_deep_fresh(x) for x in v.items], v.kind)
+    return v
 
 
 def _plain(v):
